@@ -83,6 +83,14 @@ def gen_cases(rng, tier, scale):
                             items += [post, _x(' z')]
                         cases.append(rcase(f'tc{j}', _src(items), {'v': 'V'}, entry=4, kind='whole', s=' ', exp=_exp(items), tags=['tilde-comment']))
                         j += 1
+    # raw blocks whose tags stand alone on their lines (or carry ~), bodies starting with blanks / blank lines
+    j = 0
+    for body in ['  {{x}} y', '\n  z', ' \t{{x}}', 'k\n  m', '', ' ', '{{x}}', '\n\n a']:
+        for tr in (False, True):
+            for pre_, post_ in (('', ''), ('A\n', 'Z'), ('  ', '\n')):
+                items = [_x(pre_), _t('raw', True, False, tr, quad=True), _x('\n' + body + '\n'), _t('/raw', True, quad=True), _x('\n' + post_)]
+                cases.append(rcase(f'rb{j}', _src(items), {'x': 'X'}, entry=4, kind='whole', s=' ' + body, exp=_exp(items), tags=['rawblock-standalone']))
+                j += 1
     return cases
 
 def oracle(c, io, mo):
